@@ -193,7 +193,7 @@ pub fn gen_cfg(r: &mut Rng, o: &GenOpts) -> Cfg {
         ctime,
         lang,
         // builder aliases (set_video_track / set_audio_track) are as good as video() / audio()
-        path: if r.chance(1, 4) { r.below(4) as u8 } else { 0 },
+        path: if r.chance(1, 4) { r.below(4) as u8 | if r.chance(1, 3) { 8 } else { 0 } } else { 0 },
     }
 }
 
@@ -246,6 +246,12 @@ pub fn video_timeline(r: &mut Rng, n: usize, reorder: bool, start: f64) -> Vec<(
     let mut pts = vec![0.0; n];
     for (k, &di) in order.iter().enumerate() {
         pts[di] = grid(k + delay);
+    }
+    // sometimes the whole decode timeline runs LATER than the presentation timeline (negative
+    // composition offsets from the first frame on: only decode order has to increase)
+    if r.chance(1, 8) {
+        let shift = step * r.range(1, 3) as f64;
+        return (0..n).map(|i| (pts[i], dts[i] + shift)).collect();
     }
     (0..n).map(|i| (pts[i], dts[i])).collect()
 }
@@ -360,10 +366,14 @@ fn gen_history_inner(r: &mut Rng, o: &GenOpts, cfg: Cfg) -> History {
         };
         let step = if a.is_opus() { *r.pick(&[0.02, 0.01, 0.0025, 0.06]) } else { 1024.0 / (*r.pick(&[48_000.0, 44_100.0, 32_000.0, 8_000.0])) };
         let use_encode_a = use_encode_v && off == 0.0 && r.chance(1, 2);
+        // some streams carry capture jitter: individual timestamps a few ticks off the grid
+        let jitter = r.chance(1, 5);
         for j in 0..na {
             let mut pts = first_v_pts + off + j as f64 * step;
             if j > 0 && r.chance(1, 12) {
                 pts = first_v_pts + off + (j - 1) as f64 * step; // equal to the previous one
+            } else if jitter && j > 0 && r.chance(1, 3) {
+                pts += (r.range(0, 40) as f64 - 20.0) / 90_000.0;
             }
             let len = if o.big_frames { frame_len(r).min(8000) } else { small_len(r) };
             let data = audio_frame(r, a, len);
